@@ -29,7 +29,7 @@ ID = 'C08'
 MODULE = 'PyTough.Props.C08'
 TARGETS = ['PyTough.Props.C08', 'drv_c08']
 THEOREMS = ['Props.C08.' + t for t in [
-    'consistent_of_inv', 'inv_empty', 'inv_step', 'inv_run', 'consistent_after_any_history',
+    'consistent_of_inv', 'checkInv_iff', 'inv_empty', 'inv_step', 'inv_run', 'consistent_after_any_history',
     'rename_loses_no_block', 'rename_keeps_inv', 'grid_addition_consistent', 'embed_consistent',
     'block_index_correct', 'connection_index_correct',
     'Examples.F1_add_block_replaces_connected_block', 'Examples.F2_rocktype_replaced_while_in_use',
@@ -704,12 +704,12 @@ def run(ctx, scale=1.0, oracle_only=False):
             raise RuntimeError('corpus case %s: harness classifies the last operation as %s, expected %s' % (h.name, got, want))
     # exhaustive
     tt = time.time()
-    eh, el = exhaustive(ctx, res, ctx.n(15, 360) * scale, ctx.n(2, 3), not ctx.quick)
+    eh, el = exhaustive(ctx, res, ctx.n(12, 360) * scale, ctx.n(2, 3), not ctx.quick)
     res.stats['seconds:exhaustive-real-code'] = round(time.time() - tt, 1); tt = time.time()
     for h, l in zip(eh, el):
         hists.append(h); facets.append(('exhaustive', True)); lines.append(l)
     # random
-    rh = random_histories(ctx, res, int(ctx.n(60, 1200) * scale), int(ctx.n(4, 40) * scale), 60)
+    rh = random_histories(ctx, res, int(ctx.n(60, 1200) * scale), int(ctx.n(3, 40) * scale), 60)
     for h in rh:
         hists.append(h); facets.append(('random', False))
         h.dump_from = 0
